@@ -303,6 +303,13 @@ func (c *Conn) TornWrites() int { c.mu.Lock(); defer c.mu.Unlock(); return c.tor
 // Closed reports whether Close was called.
 func (c *Conn) Closed() bool { c.mu.Lock(); defer c.mu.Unlock(); return c.closed }
 
+// Peek returns a copy of the bytes written since the previous Take without clearing them.
+func (c *Conn) Peek() []byte {
+	c.mu.Lock()
+	defer c.mu.Unlock()
+	return append([]byte{}, c.out...)
+}
+
 // Take returns and clears the bytes written since the previous Take.
 func (c *Conn) Take() []byte {
 	c.mu.Lock()
